@@ -5,6 +5,7 @@ import (
 	"image"
 	"image/color"
 	"image/draw"
+	"verif.local/sim/core"
 
 	"github.com/mandykoh/prism/adobergb"
 	"github.com/mandykoh/prism/displayp3"
@@ -80,7 +81,19 @@ func WarmTables() {
 var dstKinds = []int{kRGBA64, kRGBA, kNRGBA, kNRGBA64}
 
 func parallelismOf(t *tape.Tape, rows int) int {
-	return [...]int{1, 2, 3, 7, 16, rows + 5}[t.Intn(6)]
+	over := rows + 5 // more workers than rows
+	if over > 70 {
+		over = 64 // long images: the simulator's task table holds 512 tasks
+	}
+	return [...]int{1, 2, 3, 7, 16, over}[t.Intn(6)]
+}
+
+// harnessLimit turns a panic raised by the simulator itself (a fixed table
+// outgrown) into a harness error: exit 2, never a verdict about the tree.
+func harnessLimit(p interface{}) {
+	if l, ok := p.(simrt.LimitExceeded); ok {
+		panic(&core.HarnessError{Msg: string(l)})
+	}
 }
 
 func (c10) Run(t *tape.Tape, st *Stats) *Violation {
@@ -148,6 +161,7 @@ func (c10) Run(t *tape.Tape, st *Stats) *Violation {
 		atReturn = snapshotPlanes(dst.Parent)
 	})
 	races := simrt.RaceErrors() - racesBefore
+	harnessLimit(panicked)
 
 	path := "generic"
 	switch {
